@@ -91,10 +91,14 @@ pub fn check_case(c: &Case) -> CaseOut {
         _ => return CaseOut { viols: vec![], outcome: "not-loadable", text_words: None },
     };
     let Some((order, ctx)) = layout(&c.insts) else { return CaseOut { viols: vec![], outcome: "model-rejects", text_words: None } };
+    let t0 = std::time::Instant::now();
     let text = match guarded(|| module.disassemble()) {
         Err(p) => return CaseOut { viols: vec![viol(format!("C07:panic@{}", crate::report::panic_class(&p)), format!("case {}: disassemble panics: {}", c.id, p), rep)], outcome: "panic", text_words: None },
         Ok(t) => t,
     };
+    if std::env::var("VERIF_PROFILE").is_ok() && c.id.contains("var6553") {
+        eprintln!("{} disassemble {:?}", c.id, t0.elapsed());
+    }
     let mut viols = vec![];
     let lines: Vec<&str> = text.split('\n').collect();
     // header comment: version major.minor, generator tool name (the loader stamps rspirv's), id bound
@@ -305,7 +309,18 @@ pub fn run(tier: Tier) -> Run {
     let mut cs = c01::cases(tier);
     cs.extend(typed_constant_cases());
     cs.extend(ext_inst_cases());
-    let res: Vec<CaseOut> = cs.par_iter().map(check_case).collect();
+    let timed: Vec<(CaseOut, f64)> = cs
+        .par_iter()
+        .map(|c| {
+            let t = std::time::Instant::now();
+            let o = check_case(c);
+            (o, t.elapsed().as_secs_f64())
+        })
+        .collect();
+    let mut slow: Vec<(f64, &str)> = timed.iter().zip(cs.iter()).map(|((_, t), c)| (*t, c.id.as_str())).collect();
+    slow.sort_by(|a, b| b.0.partial_cmp(&a.0).unwrap());
+    run.set("slowest_cases", json!(slow.iter().take(5).map(|(t, id)| json!({"case": id, "seconds": t})).collect::<Vec<_>>()));
+    let res: Vec<CaseOut> = timed.into_iter().map(|x| x.0).collect();
     let mut collisions: HashMap<String, (Vec<u32>, String)> = HashMap::new();
     let mut n = 0u64;
     let mut rendered = 0u64;
